@@ -137,6 +137,16 @@ func VP_C20_ReadNCBI() {
 		}
 	}
 	data = append(data, eol...)
+	// pad (optional): a block of comment lines of about `pad` bytes after the
+	// header line, so that the table is longer than the Scanner's buffer and
+	// the buffer is refilled between the header and the rows
+	for n := vpCaseOr("pad", 0); n > 0; n -= 100 {
+		data = append(data, '#')
+		for k := 0; k < 98; k++ {
+			data = append(data, 'x')
+		}
+		data = append(data, '\n')
+	}
 	type entry struct {
 		r, c byte
 		v    float64
@@ -179,7 +189,9 @@ func VP_C20_ReadNCBI() {
 			data = append(data, eol...)
 		}
 	}
-	m, err := ReadNCBI(vpOneShot(data))
+	rd := vpOneShot(data)
+	rd.chunk = vpCaseOr("chunk", 0) // optional: delivered in pieces of this size
+	m, err := ReadNCBI(rd)
 	if corrupt != 0 {
 		vpAssert(err != nil && m == nil, "a malformed table yields an error and no partial matrix")
 		vpReach("end")
